@@ -114,6 +114,7 @@ func (c *ServerConn) ServeOnce(storageClient StorageClient, stats *Stats) (err e
 		} else if err == ErrOOM {
 			resp = new(Response)
 			resp.Status = "NOT_STORED"
+			resp.Noreply = req.NoReply
 			err = nil
 		} else {
 			// process client command format related error
